@@ -411,6 +411,31 @@ contract(
 )
 
 
+# --- scalar multiplication: termination of the double-and-add loop only (no arithmetic claim)
+model('bumble.crypto.builtin:_JacobianPoint', fields=dict(curve=Inst('bumble.crypto.builtin:_EllipticCurve'), x=Int, y=Int, z=Int))
+for _m in ('__add__', 'double'):
+    contract(
+        f'bumble.crypto.builtin:_JacobianPoint.{_m}',
+        key=f'bumble.crypto.builtin:_JacobianPoint.{_m}@opaque',
+        params=dict(self=Inst('bumble.crypto.builtin:_JacobianPoint'), other=Inst('bumble.crypto.builtin:_JacobianPoint')) if _m == '__add__' else dict(self=Inst('bumble.crypto.builtin:_JacobianPoint')),
+        returns=Inst('bumble.crypto.builtin:_JacobianPoint'),
+        modifies=[],
+        trusted=True,
+        note='group law: opaque (returns some point, total, no side effect); not proved -- 256-bit non-linear arithmetic',
+    )
+contract(
+    'bumble.crypto.builtin:_JacobianPoint.__mul__',
+    prop='C14',
+    params=dict(self=Inst('bumble.crypto.builtin:_JacobianPoint'), k=Int),
+    invariants={0: lambda k: True},
+    decreases={0: lambda k: k},
+    modifies=[],
+    uses=['bumble.crypto.builtin:_JacobianPoint.__add__@opaque', 'bumble.crypto.builtin:_JacobianPoint.double@opaque'],
+    inline=['_JacobianPoint.point_at_infinity', '_JacobianPoint.__init__'],
+    note='termination of double-and-add for every scalar (variant k); the value computed is NOT specified',
+)
+
+
 # ---------------------------------------------------------------------------
 # resolvable private addresses: generated under an IRK => resolvable, and resolves under that IRK
 # ---------------------------------------------------------------------------
